@@ -186,7 +186,13 @@ def C10_6(ctx, facts):
     ctx.floor("TcpConnecting::connect|finish", len(fin), 1, "await of attempts.finish()")
 
 
+def C10_7(ctx, facts):
+    import c11
+    c11.every_popped_started(ctx, facts)
+
+
 RULES = [
+    ("C10.7", C10_7, ["default"]),
     ("C10.1", C10_1, ["default"]),
     ("C10.2", C10_2_3, ["default"]),
     ("C10.4", C10_4, ["default"]),
